@@ -180,13 +180,13 @@ def run(ctx):
         icases.append((ops, min(min(o) for o in ops) - 1, max(max(o) for o in ops) + 1))
     ncases += corpus_n
     # exhaustive small domains
-    plans = ctx.budget([(4, 3), (2, 4), (1, 6)], [(5, 4), (3, 5), (1, 9)])
+    plans = ctx.budget([(4, 3), (2, 4), (1, 6)], [(5, 3), (3, 5), (1, 9)])
     for hi, n in plans:
         ivs = intervals(0, hi)
         for k in range(0, n + 1):
             for t in itertools.product(ivs, repeat=k):
                 icases.append((list(t), -1, hi + 1))
-    nplans = ctx.budget([(3, 3), (2, 4)], [(5, 4), (4, 5)])
+    nplans = ctx.budget([(3, 3), (2, 4)], [(5, 3), (3, 5)])
     for hi, n in nplans:
         ivs = intervals(0, hi)
         for k in range(0, n + 1):
